@@ -669,7 +669,7 @@ func trackRun(e *Env) {
 	net.me = &netUser{nick: "me", ident: "sim", host: "host.sim", name: "Sim User"}
 	net.users = append(net.users, net.me)
 	for i := 0; i < nUsers; i++ {
-		net.users = append(net.users, &netUser{nick: names[i], ident: "id" + names[i], host: names[i] + ".host.sim", name: "Real " + names[i] + []string{"", "", "", "", "", " ", " \t"}[g.Intn(7)]})
+		net.users = append(net.users, &netUser{nick: names[i], ident: "id" + names[i], host: names[i] + ".host.sim", name: "Real " + names[i] + []string{"", "", "", "", "", " ", " \t", " :-) Smith", " :x"}[g.Intn(9)]})
 	}
 	for i := 0; i < nChans; i++ {
 		c := &netChan{name: fmt.Sprintf(chanFmt, i), flags: map[byte]bool{}, members: map[*netUser]map[byte]bool{}}
@@ -685,7 +685,8 @@ func trackRun(e *Env) {
 			}
 		}
 		if g.Pct(60) {
-			c.topic = fmt.Sprintf("topic of %s", c.name) + []string{"", "", "", "", " ", " \t ", "   "}[g.Intn(7)]
+			// (free text: smileys, colons after blanks, a second " :" are all just text)
+			c.topic = fmt.Sprintf("topic of %s", c.name) + []string{"", "", "", "", " ", " \t ", "   ", " :) read the rules", " :: no spam : be nice", ": x :y"}[g.Intn(10)]
 		}
 		for _, f := range "nts" {
 			if g.Pct(50) {
@@ -775,7 +776,12 @@ func trackRun(e *Env) {
 		reqNick = "asked"
 	}
 	welcomeText = g.W(6, 2, 1)
-	co := ClientOpts{Nick: reqNick, Ident: "sim", Name: "Sim User", Flood: flood, Track: true}
+	// state tracking may also be switched on in mid-session, after lines of the
+	// very verbs the tracker listens to have gone by untracked (the client joined
+	// a channel before): from then on every line is tracked like in any session
+	lateTrack := g.Pct(12)
+	trackingOn := !lateTrack
+	co := ClientOpts{Nick: reqNick, Ident: "sim", Name: "Sim User", Flood: flood, Track: !lateTrack}
 	if g.Pct(30) {
 		// an application's recovery hook that takes its time (it runs after every
 		// handler, also after the built-in registration step inside Connect): the
@@ -804,6 +810,10 @@ func trackRun(e *Env) {
 		}
 	}
 	st := c.StateTracker()
+	if lateTrack {
+		st = state.NewTracker("nobody-yet") // (never consulted: the handlers below stand aside until tracking is on)
+		e.S.Count("probe.tracking-enabled-in-mid-session")
+	}
 	trafficStarted := false
 	if g.Pct(40) {
 		// user REGISTER handlers that take their time: they run on the goroutine
@@ -824,7 +834,7 @@ func trackRun(e *Env) {
 	if e.Prop == "C05" {
 		welcomed := func(kind string) client.HandlerFunc {
 			return func(c *client.Conn, l *client.Line) {
-				if len(l.Args) == 0 {
+				if len(l.Args) == 0 || !trackingOn {
 					return
 				}
 				me := st.Me()
@@ -855,7 +865,7 @@ func trackRun(e *Env) {
 			fired := false
 			e.S.Count("probe.one-shot-handler-reads-the-tracker")
 			rm = c.HandleFunc(v, func(c *client.Conn, l *client.Line) {
-				if fired {
+				if fired || !trackingOn {
 					return
 				}
 				fired = true
@@ -875,6 +885,9 @@ func trackRun(e *Env) {
 		// CONNECTED is raised on behalf of the welcome line, before any later line
 		// is handled: while its foreground handlers run the tracker stands still
 		c.HandleFunc(client.CONNECTED, func(c *client.Conn, l *client.Line) {
+			if !trackingOn {
+				return
+			}
 			before := st.String()
 			for i := g.S.Choose(4) * 6; i > 0; i-- {
 				simrt.Sleep(0)
@@ -1052,6 +1065,14 @@ func trackRun(e *Env) {
 		// (a bouncer or a forced auto-join: the first state-changing lines follow
 		// the welcome at once, while Connect may still be on its way out)
 		e.S.Count("probe.state-changing-lines-straight-after-the-welcome")
+	}
+	if lateTrack {
+		simrt.Settle(time.Second)
+		net.l.SendLine(":" + net.me.nick + "!sim@host.sim JOIN #pre")
+		simrt.Settle(2 * time.Second)
+		c.EnableStateTracking()
+		st = c.StateTracker()
+		trackingOn = true
 	}
 	if g.Pct(30) {
 		// a watchdog that keeps calling Connect and EnableStateTracking on the
@@ -1289,7 +1310,7 @@ func trackRun(e *Env) {
 			ch := pick(onChans)
 			uniq++
 			// free text is kept byte for byte, blanks at its end included
-			topic := fmt.Sprintf("topic %d of %s", uniq, ch.name) + []string{"", "", "", "", " ", "\t", "  \t "}[g.S.Choose(7)]
+			topic := fmt.Sprintf("topic %d of %s", uniq, ch.name) + []string{"", "", "", "", " ", "\t", "  \t ", " :-) welcome", " rules: be nice :: no spam"}[g.S.Choose(9)]
 			if g.S.Choose(20) == 0 {
 				topic = []string{" ", "\t ", "   "}[g.S.Choose(3)] // nothing but blanks is still a topic
 			}
